@@ -78,7 +78,7 @@ func (g *gen) lifeCheck(seed []byte, h, hf int, history []int, what string) {
 			continue
 		}
 		idx := x.GetIndex()
-		msg := []byte(fmt.Sprintf("m%d", idx))
+		msg := idxMsg(int(idx))
 		var sig []byte
 		r := guard(func() string {
 			s, err := x.Sign(msg)
@@ -101,6 +101,22 @@ func (g *gen) lifeCheck(seed []byte, h, hf int, history []int, what string) {
 		other = append(other, 'x')
 		g.check(!xmss.Verify(other, sig, pk), "verify-other-msg", fmt.Sprintf("%s: signature at index %d verifies for a different message", what, idx), vops...)
 	}
+}
+
+// idxMsg: the message signed at index k in the rebuild histories — a function of k, of every shape: empty, one byte, a
+// few bytes, long (the traversal state must not depend on what is signed, and an empty message is a message)
+func idxMsg(k int) []byte {
+	switch k % 5 {
+	case 0:
+		return []byte{}
+	case 1:
+		return []byte{byte(k)}
+	case 2:
+		return []byte{byte(k), byte(k >> 8)}
+	case 3:
+		return bytes.Repeat([]byte{byte(k), 0xff, 0x00}, 70)
+	}
+	return []byte(fmt.Sprintf("message for index %d", k))
 }
 
 func seqHistory(from, to int) []int {
@@ -806,7 +822,7 @@ func genC08(g *gen) {
 		}
 		origSnap[0] = g.op("x.snap %s", orig)
 		for cur < maxNeeded {
-			origSig[cur] = g.op("x.sign %s %s", orig, hx([]byte{byte(cur), byte(cur >> 8)}))
+			origSig[cur] = g.op("x.sign %s %s", orig, hx(idxMsg(cur)))
 			cur++
 			origSnap[cur] = g.op("x.snap %s", orig)
 		}
@@ -832,14 +848,14 @@ func genC08(g *gen) {
 				at := 0
 				for _, a := range way {
 					if a < 0 {
-						g.op("x.sign %s %s", id, hx([]byte{byte(at), byte(at >> 8)}))
+						g.op("x.sign %s %s", id, hx(idxMsg(at)))
 						at++
 					} else if a < n {
 						g.op("x.setidx %s %d", id, a)
 						at = a
 					} else { // crash index 2^h: reachable only by signing the last leaf
 						g.op("x.setidx %s %d", id, n-1)
-						g.op("x.sign %s %s", id, hx([]byte{byte(n - 1), byte((n - 1) >> 8)}))
+						g.op("x.sign %s %s", id, hx(idxMsg(n - 1)))
 						at = n
 					}
 				}
@@ -851,7 +867,7 @@ func genC08(g *gen) {
 					at := 0
 					for _, a := range way {
 						if a < 0 {
-							replay = append(replay, fmt.Sprintf("x.sign %s %s", id, hx([]byte{byte(at), byte(at >> 8)})))
+							replay = append(replay, fmt.Sprintf("x.sign %s %s", id, hx(idxMsg(at))))
 							at++
 						} else {
 							replay = append(replay, fmt.Sprintf("x.setidx %s %d", id, a))
@@ -865,8 +881,8 @@ func genC08(g *gen) {
 					if wi > 0 && k > c+2 {
 						break
 					}
-					s := g.op("x.sign %s %s", id, hx([]byte{byte(k), byte(k >> 8)}))
-					replay = append(replay, fmt.Sprintf("x.sign %s %s", id, hx([]byte{byte(k), byte(k >> 8)})))
+					s := g.op("x.sign %s %s", id, hx(idxMsg(k)))
+					replay = append(replay, fmt.Sprintf("x.sign %s %s", id, hx(idxMsg(k))))
 					g.check(s == origSig[k], "rebuilt-signature-identical", fmt.Sprintf("h=%d: rebuilt key (crash at %d via %v) signs index %d differently from the original", p.h, c, way, k), replay...)
 				}
 				if c >= n {
